@@ -56,7 +56,8 @@ type ReqInfo struct {
 	Method    string
 	Gid       int64
 	Outcome   chan Outcome
-	out       Outcome
+	out       Outcome // scripted answer
+	used      Outcome // answer the upstream actually gave
 	AgeNow    int64
 	HasAge    bool
 	DecNow    int64
@@ -282,6 +283,41 @@ func (w *World) markDead(gids []int64) {
 	w.mu.Unlock()
 }
 
+var routed = map[string]bool{"GET": true, "POST": true, "PUT": true, "PATCH": true, "DELETE": true, "HEAD": true,
+	"OPTIONS": true, "TRACE": true}
+
+// chain runs responder -> cache -> proxy by hand on a fresh context and writes the result
+func (w *World) chain(disp string, rec *httptest.ResponseRecorder, req *http.Request) {
+	s := server.NewServer(server.ServerOption{Cache: disp, Locations: []string{"loc"}})
+	hs := []elton.Handler{server.NewResponder(), server.NewCache(s), server.NewProxy(s)}
+	c := elton.NewContext(rec, req)
+	idx := -1
+	c.Next = func() error {
+		idx++
+		if idx >= len(hs) {
+			return nil
+		}
+		return hs[idx](c)
+	}
+	err := c.Next()
+	if err != nil {
+		rec.WriteHeader(http.StatusInternalServerError)
+		_, _ = rec.WriteString(err.Error())
+		return
+	}
+	for k, v := range c.Header() {
+		rec.Header()[k] = v
+	}
+	code := c.StatusCode
+	if code == 0 {
+		code = 200
+	}
+	rec.WriteHeader(code)
+	if c.BodyBuffer != nil {
+		_, _ = rec.Write(c.BodyBuffer.Bytes())
+	}
+}
+
 // the middleware chain of server.Start, without the listener
 func (w *World) newHandler(cacheName string) http.Handler {
 	s := server.NewServer(server.ServerOption{Cache: cacheName, Locations: []string{"loc"}})
@@ -294,7 +330,7 @@ func (w *World) newHandler(cacheName string) http.Handler {
 		// harness middleware between cache and proxy: the `next` gate, scripted panic
 		w.S.Point("next")
 		err := c.Next()
-		if ri := w.current(); ri != nil && ri.out.Kind == "panic" {
+		if ri := w.current(); ri != nil && ri.used.Kind == "panic" {
 			panic("scripted panic in handler")
 		}
 		return err
@@ -375,7 +411,13 @@ func (w *World) DoCase(proc, disp, method, host, uri string, hdr http.Header, cs
 				res.Panic = r
 			}
 		}()
-		w.handlers[disp].ServeHTTP(rec, req)
+		if routed[method] {
+			w.handlers[disp].ServeHTTP(rec, req)
+		} else {
+			// a method elton's router does not know never reaches pike's middlewares through the server;
+			// drive the exported middlewares directly (responder -> cache -> proxy)
+			w.chain(disp, rec, req)
+		}
 	}()
 	if ri.dead {
 		return res
@@ -403,7 +445,7 @@ func (w *World) finish(ri *ReqInfo, code int, h http.Header, body []byte, res *R
 		res.Ver = 0
 	} else if code >= 400 && h.Get("X-Ver") == "" {
 		// an error generated by pike: caused by the upstream outcome, or its own
-		if ri.out.Kind == "error" {
+		if ri.used.Kind == "error" {
 			errClass = "upstream"
 		} else {
 			errClass = "own"
@@ -475,6 +517,11 @@ func (w *World) point(pt string, obj interface{}, args ...interface{}) {
 	isDead := w.dead[gid]
 	w.mu.Unlock()
 	if isDead {
+		if pt == "purge.lock" {
+			// a purge of a killed incarnation walks the registry of caches lazily and would reach the caches
+			// of the new incarnation: it dies here, as the process it belongs to did
+			select {}
+		}
 		return
 	}
 	if w.Tap != nil {
@@ -557,7 +604,7 @@ func (w *World) point(pt string, obj interface{}, args ...interface{}) {
 			// the clock and the lifetime are the true ones (harness clock, what the origin granted),
 			// not the values the code stamped on the entry
 			w.emitLocked(Event{"op": "Publish", "e": w.entID(obj), "d": ri.Disp, "k": ri.Key,
-				"v": respVer(st.Response), "now": w.Clock(), "ttl": ri.out.Granted(), "code_ttl": int(st.ExpiredAt - st.CreatedAt)})
+				"v": respVer(st.Response), "now": w.Clock(), "ttl": ri.used.Granted(), "code_ttl": int(st.ExpiredAt - st.CreatedAt)})
 		}
 		w.mu.Unlock()
 	case "hfp.set":
@@ -686,6 +733,7 @@ func (w *World) upstreamHandler(rw http.ResponseWriter, req *http.Request) {
 		w.S.AuxGate(ri.sproc, "upstream")
 		w.mu.Lock()
 		out = ri.out
+		ri.used = out
 		dead := ri.dead
 		w.mu.Unlock()
 		if dead {
@@ -697,6 +745,7 @@ func (w *World) upstreamHandler(rw http.ResponseWriter, req *http.Request) {
 		out = w.Policy(ri, req)
 		w.mu.Lock()
 		ri.out = out
+		ri.used = out
 		w.mu.Unlock()
 	}
 	if out.Kind == "" {
@@ -751,6 +800,22 @@ func (w *World) upstreamHandler(rw http.ResponseWriter, req *http.Request) {
 	if req.Method != "HEAD" {
 		_, _ = rw.Write(body)
 	}
+}
+
+// PurgeCall the administrator's purge: call begin / return are observation events
+func (w *World) PurgeCall(name string, ds []string, model string, concreteKey string) {
+	gid := sched.Gid()
+	w.mu.Lock()
+	if !w.dead[gid] {
+		w.emitLocked(Event{"op": "PurgeCall", "ds": ds, "k": model})
+	}
+	w.mu.Unlock()
+	cache.RemoveHTTPCache(name, []byte(concreteKey))
+	w.mu.Lock()
+	if !w.dead[gid] {
+		w.emitLocked(Event{"op": "PurgeReturn", "ds": ds, "k": model})
+	}
+	w.mu.Unlock()
 }
 
 // Purge runs cache.RemoveHTTPCache on the calling goroutine
